@@ -58,7 +58,7 @@ def main():
         nf = int(rng.integers(1, 10))
         ns = int(rng.integers(1, 40))
         card = int(rng.integers(2, 7))
-        seed = int(rng.integers(0, 10 ** 6))
+        seed = int(rng.choice([0, 1, 2 ** 32 - 1])) if case % 7 == 3 else int(rng.integers(0, 10 ** 6))       # boundary seeds (0 is a seed like any other)
         structure = None
         declared = {}
         if rng.random() < 0.75:
